@@ -18,6 +18,7 @@ from typing import (
 
 from ..constants import (
     DEFAULT_LISTENING_HOST,
+    PEER_ADDRESS_TIMEOUT,
     PEER_INDIRECT_CONNECT_TIMEOUT,
 )
 from .connection import (
@@ -639,12 +640,19 @@ class Network:
             returned
         """
         await self.server_connection.send_message(GetPeerAddress.Request(username))
-        _, response = await self.create_server_response_future(
-            GetPeerAddress.Response,
-            fields={
-                'username': username
-            }
-        )
+        try:
+            response = await self.wait_for_server_message(
+                GetPeerAddress.Response,
+                fields={
+                    'username': username
+                },
+                timeout=PEER_ADDRESS_TIMEOUT
+            )
+        except TimeoutError:
+            # The server connection can be lost between the request and the
+            # response: never wait for ever, the caller holds on to resources
+            # (f.e. an upload slot) while the connection is being made
+            raise PeerConnectionError(f"no address received for user : {username}")
 
         if response.ip == '0.0.0.0':
             logger.warning("GetPeerAddress : no address returned for username : %s", username)
